@@ -233,6 +233,50 @@ def run(tier):
             ck.violation("silently-altered:wasm-usize" if not linted else "false-lint:wasm-usize",
                          "wasm32 target: `var x: usize = %d` %s L1142; the value stored is %s" % (v, "raises" if linted else "does not raise", stored.group(1) if stored else "?"), src)
     ck.log("array lengths and 32-bit usize: %d programs, %d problems" % (len(lsrcs) + len(wsrcs), lmism))
+    # the tie of Model/LintWalk.v: the declarations the real pipeline hands to the linter (serialised by
+    # harness/src/lintser.rs) go through the extracted traversal; its lints (code, position) must be the real ones
+    from .. import gen_prog as GP2, gen_mut as GM2
+    wsrc = [(cid, src) for cid, src in srcs[:: (3 if tier == "quick" else 1)]]
+    wrng = random.Random(ck.seed + 909)
+    for i in range(150 if tier == "quick" else 6000):
+        g = GP2.Gen(random.Random(wrng.getrandbits(64)), level=3, max_funcs=3)
+        text = GP2.source(g.program(), random.Random(i), plain=(i % 2 == 0))
+        # push some literals out of range: append digits to a few decimal literals
+        def grow(m): return m.group(0) + ("00" if wrng.random() < 0.3 else "")
+        wsrc.append(("wg%d" % i, __import__("re").sub(r"(?<![\w.])[1-9][0-9]{0,2}(?![\w.])", grow, text)))
+    for i, (name, text) in enumerate(GM2.corpus()):
+        wsrc.append(("wc%d" % i, text))
+    for i, (k, text) in enumerate(GM2.stream(wrng, 200 if tier == "quick" else 8000)):
+        wsrc.append(("wm%d" % i, text))
+    wimpl = C.run_harness("lintwalk", wsrc, ck.work + "/lintwalk", timeout=1800)
+    witems = [("lintwalk", cid, wimpl[cid][1]) for cid, _ in wsrc if cid in wimpl and len(wimpl[cid]) >= 3 and wimpl[cid][1].startswith("(mod")]
+    wmodel = C.run_model(witems, ck.work + "/lintwalk")
+    wbad = 0; wstats = collections.Counter()
+    for cid, src in wsrc:
+        f = wimpl.get(cid, ["missing"])
+        if len(f) < 3 or not f[1].startswith("(mod"):
+            wstats["not-linted:" + f[0].split(" ")[0].split("=")[0]] += 1
+            if f[0].startswith("panic") or f[0].startswith("crash"): pass      # crashes are C02's business
+            continue
+        m = wmodel.get(cid, "MODEL-MISSING")
+        if f[2].startswith("DIFF"):
+            wbad += 1; ck.violation("tie-broken:lint-replica", "the hand-driven pipeline of the harness sees other lints than the real one: " + f[2][:300], src); continue
+        if not m.startswith("lints="):
+            wbad += 1; ck.violation("tie-broken:model-error", "LintWalk model failed: " + m[:200], src); continue
+        mp = {"lints": m[len("lints="):m.index(" literals=")]}
+        mp.update(dict(x.split("=", 1) for x in m[m.index(" literals=") + 1:].split(" ") if "=" in x))
+        if "range-table-mismatch" in mp:
+            wbad += 1; ck.violation("tie-broken:range-table", "value_type.rs min/max of %s differ from Gen/TypeTables.v" % mp["range-table-mismatch"], src); continue
+        nl = f[2].count("(1142 ")
+        wstats["literals"] += int(mp.get("literals", 0)); wstats["L1142"] += nl; wstats["L1800"] += f[2].count("(1800 "); wstats["modules"] += 1
+        if mp["lints"] != f[2]:
+            wbad += 1
+            missing = [x for x in mp["lints"].replace(")(", ") (").split(" ") if x and x not in f[2]]
+            ck.violation("literal-not-linted" if missing else "lint-differs",
+                         "the linter's lints differ from the traversal of Model/LintWalk.v (which reaches every literal: lint_visits_are_occurrences)%s" % (
+                             "; not reported: " + " ".join(missing[:5]) if missing else ""),
+                         "source:\n%s\nreal : %s\nmodel: %s\ndeclarations: %s" % (src, f[2], mp["lints"], f[1][:3000]))
+    ck.log("lint traversal tie: %d modules %s, %d problems" % (len(wsrc), dict(wstats), wbad))
     if not proof_ok:
         ck.violation("tie-broken:proof", "Props/C09.v no longer checks", getattr(ck, "proof_output", "")[-2000:])
     ck.coverage.update(
